@@ -119,6 +119,8 @@ def tlc_mc(job, module, base_cfg, overrides=None, workers=16, timeout=900, cover
     res["completed"] = "Model checking completed. No error has been found." in out
     m = re.search(r"Error: (Invariant \S+ is violated|Action property .* is violated|Temporal properties were violated|"
                   r"Deadlock reached|Postcondition .* is false|Assumption .* is false)[^\n]*", out)
+    if not m:
+        m = re.search(r"The first argument of Assert evaluated to FALSE[^\n]*\n[^\n]*", out)
     if m:
         res["violation"] = m.group(0)
     elif "Error:" in out and not res["completed"]:
@@ -150,7 +152,7 @@ REJ_RE = re.compile(r'<<"REJECTED_AT", (\d+), "(.*)">>')
 
 def _tlc_trace_once(job, module, cfg_text, trace_path, timeout):
     d = _stage(job, None, cfg_text, module + ".cfg")
-    env = dict(os.environ, TRACE=trace_path,
+    env = dict(os.environ, TRACE=os.path.abspath(trace_path),
                JAVA_TOOL_OPTIONS="-Xss1g -Dtlc2.tool.queue.IStateQueue=StateDeque")
     cmd = ["timeout", str(timeout), "java", "-XX:+UseParallelGC", "-Xmx3g", "-cp",
            "/opt/veriftools/tla/tla2tools.jar:/opt/veriftools/tla/CommunityModules-deps.jar", "tlc2.TLC",
